@@ -9,6 +9,7 @@ Spec: {'depth': 0..2, 'flow_steps': n, 'edges': [[dep, step], ...] (dep<step),
 from hypothesis import strategies as st
 
 from vv import kit
+from vivarium.core.process import Process
 from vv.core import Result, exc_violation, innermost_is_harness
 from vv.ref import layers as ref
 
@@ -33,7 +34,12 @@ RULE = ('Hypothesis draws a random DAG over 1..7 flow steps (drawn edge '
         'time, in declaration order within their dictionary; every step sees '
         'tick == applied process updates. Non-trivial = DAG depth >=2 with a '
         'layer of width >=2, or derivers together with flow steps, or nesting; '
-        'distinct = spec hash.')
+        'distinct = spec hash. One case in eight is a reflow case: a '
+        'compartment of 2..5 flow steps is deleted by one process and '
+        're-generated under the same key by another in the same batch, same '
+        'step names, a second drawn DAG; every step must run once per phase '
+        'and see the current stamp of each transitive dependency under the '
+        'flow in force (non-trivial = second DAG non-empty and different).')
 ASSUMPTIONS = [
     'the relative order of derivers listed under `processes` and under `steps` '
     'is not asserted (statement: declaration order; two dictionaries)',
@@ -44,6 +50,21 @@ ASSUMPTIONS = [
 
 @st.composite
 def strategy_(draw, tier):
+    if draw(st.integers(0, 7)) == 0:
+        # 'reflow': a compartment is deleted by one process and re-generated
+        # under the same key by another one in the same batch, with the same
+        # step names but another flow (no step phase lies in between)
+        n = draw(st.integers(2, 5))
+
+        def dag():
+            perm = draw(st.permutations(list(range(n))))
+            return [[perm[a], perm[b]] for b in range(n) for a in range(b)
+                    if draw(st.integers(0, 2)) > 0]
+        return {'kind': 'reflow', 'n': n, 'edges1': dag(), 'edges2': dag(),
+                'when': draw(st.integers(1, 3)),
+                'after': draw(st.integers(1, 3)),
+                'op': draw(st.sampled_from(['update', 'run_for'])),
+                'chunked': draw(st.booleans())}
     n = draw(st.integers(1, 7))
     density = draw(st.sampled_from([0.0, 0.2, 0.4, 0.7, 1.0]))
     edges = []
@@ -159,7 +180,143 @@ def build(spec, ctx):
     return processes, steps, flow, topology, (fnames, dp, ds, deps)
 
 
+class StructAt(Process):
+    """Returns one given update for the store it is wired to, at the end of
+    its `when`-th interval; empty updates otherwise."""
+    defaults = {'when': 1, 'update': None, 'time_step': 1.0}
+
+    def __init__(self, parameters=None):
+        super().__init__(parameters)
+        self.calls = 0
+
+    def ports_schema(self):
+        return {'root': {}}
+
+    def next_update(self, timestep, states):
+        self.calls += 1
+        if self.calls == self.parameters['when']:
+            return {'root': self.parameters['update']}
+        return {}
+
+
+def closure(n, edges):
+    """Transitive dependencies for edges in any index order."""
+    anc = {j: {i for i, jj in edges if jj == j} for j in range(n)}
+    changed = True
+    while changed:
+        changed = False
+        for j in range(n):
+            new = set(anc[j])
+            for i in anc[j]:
+                new |= anc[i]
+            if new != anc[j]:
+                anc[j] = new
+                changed = True
+    return anc
+
+
+def reflow_compartment(spec, ctx, edges):
+    names = ['s%d' % i for i in range(spec['n'])]
+    deps = {j: [] for j in range(spec['n'])}
+    for i, j in edges:
+        deps[j].append(i)
+    return {
+        'processes': {},
+        'steps': {nm: kit.DoneStep({'name': nm, 'run_id': ctx.run_id,
+                                    'all': names}) for nm in names},
+        'flow': {names[j]: [(names[i],) for i in deps[j]]
+                 for j in range(spec['n'])},
+        'topology': {nm: {'done': ('done',), 'clock': ('..', 'clock')}
+                     for nm in names},
+        'initial_state': {}}
+
+
+def run_reflow(spec):
+    from vivarium.core.engine import Engine
+    res = Result()
+    ctx = kit.Context(t0=0, budget=5000)
+    try:
+        names = ['s%d' % i for i in range(spec['n'])]
+        first = reflow_compartment(spec, ctx, spec['edges1'])
+        second = reflow_compartment(spec, ctx, spec['edges2'])
+        second['key'] = 'x'
+        processes = {
+            't0': kit.TickProcess({'name': 't0', 'run_id': ctx.run_id,
+                                   'time_step': 1.0}),
+            # declared, and so applied, in this order: delete, then generate
+            'pdel': StructAt({'when': spec['when'],
+                              'update': {'_delete': ['x']}}),
+            'pgen': StructAt({'when': spec['when'],
+                              'update': {'_generate': [second]}})}
+        topology = {'t0': {'clock': ('clock',)}, 'pdel': {'root': ()},
+                    'pgen': {'root': ()}, 'x': first['topology']}
+        res.label('reflow')
+        res.nontrivial = bool(spec['edges2']) and \
+            sorted(map(tuple, spec['edges1'])) != \
+            sorted(map(tuple, spec['edges2']))
+        if res.nontrivial:
+            res.label('reflow.same_paths_new_flow')
+        engine = Engine(processes=processes, steps={'x': first['steps']},
+                        flow={'x': first['flow']}, topology=topology,
+                        display_info=False, emitter=kit.emitter_config(ctx))
+        ctx.engine = engine
+        total = spec['when'] + spec['after']
+        chunks = [1.0] * total if spec['chunked'] else [float(total)]
+        for c in chunks:
+            if spec['op'] == 'update':
+                engine.update(c)
+            else:
+                engine.run_for(c, force_complete=True)
+        phases = []
+        cur = []
+        for ev in ctx.log:
+            if ev[0] == 'emit' and ev[1] == 'configuration':
+                continue
+            cur.append(ev)
+            if ev[0] == 'emit' and ev[1] == 'history':
+                phases.append(cur)
+                cur = []
+        if len(phases) != total + 1:
+            res.fail('reflow.phases', '%d step phases/rows, expected %d'
+                     % (len(phases), total + 1), 'engine.py:run_for')
+            return res
+        tick = 0
+        for k, evs in enumerate(phases):
+            tick += sum(1 for e in evs if e[0] == 'apply' and e[1] == 'tick')
+            edges = spec['edges1'] if tick < spec['when'] else spec['edges2']
+            anc = closure(spec['n'], edges)
+            runs = [e for e in evs if e[0] == 'step']
+            if sorted(e[1] for e in runs) != names:
+                res.fail('reflow.once', 'phase %d (tick %d): steps run %r, '
+                         'expected each of %r exactly once'
+                         % (k, tick, [e[1] for e in runs], names),
+                         'engine.py:run_steps')
+                return res
+            for e in runs:
+                i = names.index(e[1])
+                for d in sorted(anc[i]):
+                    if e[5][names[d]] != tick:
+                        res.fail('reflow.dependency', 'phase %d (tick %d, flow '
+                                 '%s the re-generation): %s depends on %s but '
+                                 'saw its stamp %r'
+                                 % (k, tick, 'before' if tick < spec['when']
+                                    else 'after', e[1], names[d],
+                                    e[5][names[d]]), 'engine.py:run_steps')
+                        return res
+    except kit.PollBudgetExceeded as e:
+        res.fail('nontermination', str(e))
+    except Exception as e:
+        if innermost_is_harness(e):
+            raise
+        res.violations.append(exc_violation(e))
+    finally:
+        ctx.close()
+    return res
+
+
 def run_case(spec):
+    if spec.get('kind') == 'reflow':
+        return run_reflow(spec)
     from vivarium.core.engine import Engine
     res = Result()
     ctx = kit.Context(t0=0, budget=5000)
